@@ -1442,13 +1442,23 @@ func (p *scionPacketProcessor) updateNonConsDirIngressSegID() disposition {
 	return pForward
 }
 
+// pathOffset returns the offset of the SCION path meta header in the packet. In an EPIC packet
+// the SCION path is preceded by the EPIC metadata (PktID, PHVF, LHVF).
+func (p *scionPacketProcessor) pathOffset() int {
+	offset := slayers.CmnHdrLen + p.scionLayer.AddrHdrLen()
+	if p.scionLayer.PathType == epic.PathType {
+		offset += epic.MetadataLen
+	}
+	return offset
+}
+
 func (p *scionPacketProcessor) currentInfoPointer() uint16 {
-	return uint16(slayers.CmnHdrLen + p.scionLayer.AddrHdrLen() +
+	return uint16(p.pathOffset() +
 		scion.MetaLen + path.InfoLen*int(p.path.PathMeta.CurrINF))
 }
 
 func (p *scionPacketProcessor) currentHopPointer() uint16 {
-	return uint16(slayers.CmnHdrLen + p.scionLayer.AddrHdrLen() +
+	return uint16(p.pathOffset() +
 		scion.MetaLen + path.InfoLen*p.path.NumINF + path.HopLen*int(p.path.PathMeta.CurrHF))
 }
 
